@@ -168,6 +168,12 @@ def run(ctx):
             unexpl.append(({"name": "Content-Disposition", "value": l}, "a disposition copied through the typed reader does not come out as one clean field: %r" % blk[:120]))
         elif dec != "some\t%s\t%s" % (hx(U(l.split("\t")[1])), hx(want_name)):
             unexpl.append(({"name": "Content-Disposition", "value": l}, "a disposition copied through the typed reader no longer carries its file name: the RFC 2231 reader recovers %s" % dec[:100]))
+    # a message whose body is empty: the header section is still followed by one empty line
+    el = ["body.part\tmsg\t%s\t%s\t-" % (pre, kind) for pre in ("-", "7bit", "base64", "quoted-printable") for kind in ("str", "vec", "body:7bit", "body:base64")]
+    for line, r in zip(el, run_impl(el)):
+        ctx.count()
+        if r.startswith("ok\t") and not unhx(r.split("\t")[1]).endswith(b"\r\n\r\n"):
+            unexpl.append(({"name": "message", "value": line}, "the header section of a message without content is not followed by an empty line: ...%r" % unhx(r.split("\t")[1])[-40:]))
     # one field per name, whatever the letter case of later set calls (header map operations)
     hn = ["Subject", "subject", "SUBJECT", "sUBJECT", "X-Priority", "x-priority", "X-priority", "Date", "date", "Message-ID", "Message-Id"]
     ol = []
@@ -183,6 +189,10 @@ def run(ctx):
     oi, om = run_impl(ol), run_model(ol)
     ctx.count(len(ol))
     odiff = [k for k in range(len(ol)) if oi[k] != om[k]]
+    # the same kind of histories with the map formatted in between: the section shows exactly the stored fields
+    from hdrcheck import fmtops_family
+    for line, what in fmtops_family(ctx, rng, 300 if ctx.tier == "quick" else 3000, ["Subject", "subject", "X-One", "x-one", "X-Two", "Comments", "To", "X-THREE"], run_impl):
+        unexpl.append(({"name": "Headers", "value": line[:600]}, what))
     for k, o in enumerate(oi):
         f = o.split("\t")
         if len(f) == 2:
